@@ -211,6 +211,7 @@ pub fn alphabet(thorough: bool) -> Vec<Call> {
         Call::W(T::M(PARENT, Master::Full(vec![T::U(CHILD, 1)])), Opt::Default),
         Call::W(T::M(PARENT, Master::Full(vec![T::U(CHILD, 1), T::U(UINT, 2)])), Opt::Default),
         Call::W(T::M(PARENT, Master::Full(vec![T::U(CHILD, 1)])), Opt::Width(2)),
+        Call::W(T::M(PARENT, Master::Full(vec![T::M(SUB, Master::Full(vec![T::U(LEAF, 1)])), T::U(CHILD, 2)])), Opt::Width(2)),   // nested Full under an explicit width: the width is the outer master's alone
         Call::W(T::M(PARENT, Master::Full(vec![T::U(UINT, 2)])), Opt::Default),                                  // invalid FIRST child
         Call::W(T::M(PARENT, Master::Full(vec![T::U(CHILD, 1), T::M(PARENT, Master::End)])), Opt::Default),     // a child that ends the Full master itself
         Call::W(T::Raw(0x4321, vec![1, 2]), Opt::Default), Call::W(T::Raw(0x11, vec![1]), Opt::Default),
